@@ -45,7 +45,7 @@ type robustResult struct {
 	Detail  string `json:"detail"`
 }
 
-var variants = []goVariant{{}, {IntW: 16}, {PtrLevel: 1, PtrStruct: true}, {NullWrap: true, Float32: true}, {IntW: -1, PtrLevel: 2}}
+var variants = []goVariant{{}, {IntW: 16}, {PtrLevel: 1, PtrStruct: true}, {NullWrap: true, Float32: true}, {IntW: -1, PtrLevel: 2}, {PtrColl: true}}
 
 func targetFor(schemaJSON string, vi int) (avro.Schema, any, error) {
 	s, err := avro.SchemaFromString(schemaJSON)
@@ -88,6 +88,8 @@ func execCase(rc robustCase) (outcome, detail string) {
 			return "err", "codec: " + err.Error()
 		}
 		if rc.Entry == "codec" {
+			// a codec that could be built must also survive a few inputs (result or error)
+			exerciseCodec(codec, out)
 			return "ok", ""
 		}
 		r := avro.NewReadBuf(rc.Bytes)
@@ -125,9 +127,11 @@ func execCase(rc robustCase) (outcome, detail string) {
 			return "err", err.Error()
 		}
 		// a parsed schema must also survive codec construction and marshalling
-		if _, err := s.Codec(&struct{}{}); err != nil {
+		sc, err := s.Codec(&struct{}{})
+		if err != nil {
 			return "err", "codec: " + err.Error()
 		}
+		exerciseCodec(sc, &struct{}{})
 		if _, err := s.Marshal(); err != nil {
 			return "err", "marshal: " + err.Error()
 		}
@@ -155,6 +159,18 @@ func execCase(rc robustCase) (outcome, detail string) {
 		return "ok", out.T.String()
 	}
 	return "err", "unknown entry"
+}
+
+// exerciseCodec feeds a few canned inputs to Read and Skip; errors are fine, a panic is caught by the caller.
+func exerciseCodec(codec avro.Codec, out any) {
+	for _, in := range [][]byte{{}, {0}, {2}, {1}, {4, 0}, {0, 0, 0, 0, 0, 0}, {0xfe, 0xff, 0xff, 0xff, 0x0f}, {2, 2, 2, 2, 2, 2, 2, 2}} {
+		r := avro.NewReadBuf(in)
+		_ = codec.Read(r, reflect.ValueOf(out).UnsafePointer())
+		r.ExtractResourceBank().Close()
+		r2 := avro.NewReadBuf(in)
+		_ = codec.Skip(r2)
+		r2.ExtractResourceBank().Close()
+	}
 }
 
 // panicOrigin tells whether the innermost non-runtime frame of a panic is library or harness code.
